@@ -19,10 +19,26 @@ use std::panic::{catch_unwind, AssertUnwindSafe};
 fn eval(input: &str) -> String {
     let r = catch_unwind(AssertUnwindSafe(|| {
         let mut t = Toks::new(input);
-        let op = match t.tok() {
+        let mut op = match t.tok() {
             Ok(o) => o,
             Err(e) => return format!("harness-error {}", e),
         };
+        proto::NEGZERO.with(|c| c.set(None));
+        while op == "NZ" || op == "DUP" {
+            if op == "NZ" {
+                // negative-zero variant of the case that follows (see proto::nz)
+                let k = match t.tok().ok().and_then(|s| s.parse::<u64>().ok()) {
+                    Some(k) => k,
+                    None => return "harness-error bad-NZ".to_string(),
+                };
+                proto::NEGZERO.with(|c| c.set(Some((k, 0))));
+            }
+            // `DUP` only marks a case in which `dup_variant` repeated a vertex (for the evidence counters)
+            op = match t.tok() {
+                Ok(o) => o,
+                Err(e) => return format!("harness-error {}", e),
+            };
+        }
         let res = eval_dispatch(op, &mut t);
         match res {
             Ok(s) => s,
@@ -33,6 +49,71 @@ fn eval(input: &str) -> String {
         Ok(s) => s,
         Err(_) => "panic".to_string(),
     }
+}
+
+/// Positions `(count_token, n)` of the coordinate lists of the tagged geometries in a tokenised line.
+fn coord_lists(t: &[&str]) -> Option<Vec<(usize, usize)>> {
+    fn list(t: &[&str], i: usize, out: &mut Vec<(usize, usize)>) -> Option<usize> {
+        let n: usize = t.get(i)?.parse().ok()?;
+        if i + 1 + 2 * n > t.len() { return None; }
+        out.push((i, n));
+        Some(i + 1 + 2 * n)
+    }
+    fn poly(t: &[&str], i: usize, out: &mut Vec<(usize, usize)>) -> Option<usize> {
+        let k: usize = t.get(i)?.parse().ok()?;
+        let mut i = i + 1;
+        for _ in 0..k { i = list(t, i, out)?; }
+        Some(i)
+    }
+    fn geom(t: &[&str], i: usize, out: &mut Vec<(usize, usize)>) -> Option<usize> {
+        match *t.get(i)? {
+            "PT" => Some(i + 3),
+            "LN" | "RC" => Some(i + 5),
+            "TR" => Some(i + 7),
+            "MPT" => { let n: usize = t.get(i + 1)?.parse().ok()?; Some(i + 2 + 2 * n) }
+            "LS" => list(t, i + 1, out),
+            "PG" => poly(t, i + 1, out),
+            "MLS" => { let k: usize = t.get(i + 1)?.parse().ok()?; let mut j = i + 2; for _ in 0..k { j = list(t, j, out)?; } Some(j) }
+            "MPG" => { let k: usize = t.get(i + 1)?.parse().ok()?; let mut j = i + 2; for _ in 0..k { j = poly(t, j, out)?; } Some(j) }
+            "GC" => { let k: usize = t.get(i + 1)?.parse().ok()?; let mut j = i + 2; for _ in 0..k { j = geom(t, j, out)?; } Some(j) }
+            _ => None,
+        }
+    }
+    let mut out = Vec::new();
+    let mut i = 0;
+    while i < t.len() {
+        if matches!(t[i], "PT" | "LN" | "RC" | "TR" | "MPT" | "LS" | "PG" | "MLS" | "MPG" | "GC") {
+            i = geom(t, i, &mut out)?;
+            if i > t.len() { return None; }
+        } else {
+            i += 1;
+        }
+    }
+    Some(out)
+}
+
+/// The same case with one vertex of one line string / ring written two or three times in a row (a zero-length
+/// segment; for the last vertex of a ring: a repeated closing coordinate). The point sets are unchanged.
+fn dup_variant(input: &str, rng: &mut Rng) -> Option<String> {
+    let t: Vec<&str> = input.split(' ').collect();
+    let lists: Vec<(usize, usize)> = coord_lists(&t)?.into_iter().filter(|&(_, n)| n >= 2).collect();
+    if lists.is_empty() { return None; }
+    let (pos, n) = *rng.pick(&lists);
+    let v = match rng.below(4) { 0 => n - 1, 1 => 0, _ => rng.below(n as u64) as usize };
+    let reps = if rng.chance(1, 4) { 2 } else { 1 };
+    let mut out: Vec<String> = Vec::with_capacity(t.len() + 5);
+    out.push("DUP".to_string());
+    for (i, tok) in t.iter().enumerate() {
+        if i == pos {
+            out.push(format!("{}", n + reps));
+        } else {
+            out.push(tok.to_string());
+        }
+        if i == pos + 2 + 2 * v {
+            for _ in 0..reps { out.push(t[i - 1].to_string()); out.push(t[i].to_string()); }
+        }
+    }
+    Some(out.join(" "))
 }
 
 fn gen_case(prop: &str, rng: &mut Rng, index: u64) -> String {
@@ -52,10 +133,19 @@ fn main() {
             let nshards: u64 = args[5].parse().unwrap();
             let count: u64 = args[6].parse().unwrap();
             let pn: u64 = prop[1..].parse().unwrap_or(0);
+            let dup_props: Vec<String> = std::env::var("VERIF_DUP_PROPS").unwrap_or_default().split(',').map(|s| s.to_string()).collect();
             let mut i = shard;
             while i < count {
                 let mut rng = Rng::new(seed, pn, i);
-                let input = gen_case(prop, &mut rng, i);
+                let mut input = gen_case(prop, &mut rng, i);
+                // one case in twelve is run with a repeated vertex (props listed in VERIF_DUP_PROPS, see ./check)
+                if rng.chance(1, 12) && dup_props.iter().any(|p| p == prop) {
+                    if let Some(d) = dup_variant(&input, &mut rng) { input = d; }
+                }
+                // one case in eight with a zero coordinate is run in a negative-zero spelling
+                if rng.chance(1, 8) && input.split(' ').any(|t| t == "0") {
+                    input = format!("NZ {} {}", rng.next() % 1000, input);
+                }
                 let o = eval(&input);
                 writeln!(out, "{} => {}", input, o).unwrap();
                 i += nshards;
